@@ -11,7 +11,7 @@ COMMON_TB = [
 PROPS = {
     "C15": {
         "level": "proof",
-        "suites": ["c15_base62", "c15_sha"],
+        "suites": ["c15_base62", "c15_sha", "real_c15"],
         "rule": "encode: edge values (0, 1, 2^256-1, 62^k and neighbours, 2^k, 2^k-1) plus random 256-bit values; "
                 "decode: valid encodings, values in [2^256,62^43), every length 0..60 over an alphabet with "
                 "non-alphanumerics and multi-byte characters, one foreign character at each of the 43 positions; "
@@ -116,6 +116,53 @@ PROPS = {
         "assumptions": [
             "theorems are about coq/Model/TopoSort.v against coq/Model/TopoSpec.v; tied to src/sort.rs by suite c12_sorter (exhaustive on small graphs validates the model against the code; the theorems cover all sizes)",
             "rule identities in nodes are checked by the monitor against Rule::get_ticket, not compared with the model (see C13)",
+        ],
+    },
+    "C03": {
+        "level": "proof",
+        "suites": ["sched"],
+        "columns": ["cmds"],
+        "rule": "one build or clean invocation explored under many thread schedules from the same disk state: serial, 20 (60) seeded-random, 10 (20) PCT-style, and bounded exhaustive depth-first enumeration of the choice tree for scenarios of <= 3 rules; scenarios: generated graphs plus wide fan-in, fan-out with byte-identical outputs, independent rules with equal outputs, chain+diamond, with failing rules and missing leaves; initial states fresh / built / built-cleaned / built-edited / built-cleaned-edited / built-tampered; yield points at spawn, send, recv, join, endpoint drop, task exit and every System call. Every schedule's event trace is replayed through the protocol model (trace validation) and the serial run is a history case for the build model. Distinct by hash of the case; all cases non-trivial." + " Monitor: at every execute_command entry each declared source is compared with its independently computed final value, and no later call touches it.",
+        "trusted_base": COMMON_TB + ["the scheduler shim (real threads under a baton; preemption inside a System call is not explored)", "std::thread / std::sync::mpsc semantics as re-implemented by the shim and as modelled by the protocol LTS"],
+        "assumptions": [
+            "PARTIAL: the theorems are about the protocol LTS with an atomic work step (coq/Model/Protocol.v); what 'final' means is C01, that nobody else writes the files is C09; commands are atomic, target-only writers",
+            "tied to src/build.rs by trace validation of every explored schedule (suite sched)",
+        ],
+    },
+    "C05": {
+        "level": "proof",
+        "suites": ["sched"],
+        "columns": ["verdict"],
+        "rule": "one build or clean invocation explored under many thread schedules from the same disk state: serial, 20 (60) seeded-random, 10 (20) PCT-style, and bounded exhaustive depth-first enumeration of the choice tree for scenarios of <= 3 rules; scenarios: generated graphs plus wide fan-in, fan-out with byte-identical outputs, independent rules with equal outputs, chain+diamond, with failing rules and missing leaves; initial states fresh / built / built-cleaned / built-edited / built-cleaned-edited / built-tampered; yield points at spawn, send, recv, join, endpoint drop, task exit and every System call. Every schedule's event trace is replayed through the protocol model (trace validation) and the serial run is a history case for the build model. Distinct by hash of the case; all cases non-trivial." + " Monitor: the shim reports 'all tasks blocked', panics caught at task and call boundary, failed sends/receives, BuildError::{SenderError,ReceiverError,Weird}.",
+        "trusted_base": COMMON_TB + ["the scheduler shim (real threads under a baton)", "std::thread / std::sync::mpsc semantics as re-implemented by the shim and as modelled by the protocol LTS"],
+        "assumptions": [
+            "PARTIAL: protocol-level theorems (no channel error, deadlock freedom, termination bound) for every accepted plan and every interleaving; OS-level hangs, commands that never exit, file-system faults and panics inside the work step are monitored, not proved",
+            "tied to src/build.rs by trace validation of every explored schedule (suite sched)",
+        ],
+    },
+    "C06": {
+        "level": "proof",
+        "suites": ["sched"],
+        "columns": ["verdict", "files"],
+        "rule": "one build or clean invocation explored under many thread schedules from the same disk state: serial, 20 (60) seeded-random, 10 (20) PCT-style, and bounded exhaustive depth-first enumeration of the choice tree for scenarios of <= 3 rules; scenarios: generated graphs plus wide fan-in, fan-out with byte-identical outputs, independent rules with equal outputs, chain+diamond, with failing rules and missing leaves; initial states fresh / built / built-cleaned / built-edited / built-cleaned-edited / built-tampered; yield points at spawn, send, recv, join, endpoint drop, task exit and every System call. Every schedule's event trace is replayed through the protocol model (trace validation) and the serial run is a history case for the build model. Distinct by hash of the case; all cases non-trivial." + " Monitor: every schedule must give the serial schedule's verdict and workspace contents.",
+        "trusted_base": COMMON_TB + ["the scheduler shim (real threads under a baton)", "std::thread / std::sync::mpsc semantics as re-implemented by the shim and as modelled by the protocol LTS"],
+        "assumptions": [
+            "PARTIAL: proved: every complete execution has exactly the same events and final protocol state (only the order differs); NOT proved: that the work steps of independent rules commute on the shared cache up to verdict and workspace — decided by schedule exploration on the implementation",
+            "deterministic commands; fine clock",
+        ],
+    },
+    "C19": {
+        "level": "proof",
+        "suites": ["real_c19"],
+        "rule": "ruler directories produced by random build/clean histories of the real binary on the real file system (4 quick / 40 thorough), sometimes with a damaged history "
+                "file; `ruler serve` on a loopback port; requests: every cached hash (with and without trailing slash), every recorded (rule, sources) pair, absent hashes, "
+                "and hostile paths (wrong length, percent-encoded characters and slashes, '..', empty segments, extra segments, other prefixes, non-ASCII, near-miss "
+                "mutations of real names, query strings); status and body compared with the model's respond on the raw segments; monitors: 200 bodies hash to the "
+                "requested name / are the recorded outputs, nothing else is ever served, server alive afterwards, POST not served. Distinct by request path.",
+        "trusted_base": COMMON_TB + ["warp/hyper/tokio (routing, raw segment passing, connection handling) are not modelled; checklib/realbin.py's warp_segments states the observed segmentation", "python http.client"],
+        "assumptions": [
+            "PARTIAL: theorems about the handler logic (coq/Model/Server.v); the HTTP stack and liveness are covered by the loopback correspondence only",
+            "cache content addressing from C07; name decoding from C15",
         ],
     },
 }
